@@ -11,6 +11,11 @@ package main
 //     ahead belongs to the record layer alone; no handshake step may touch it).
 // Every shape fact is a Bool "the statement is literally the expected one"; the Lean model
 // is a transcription of that expected statement, so a changed statement breaks `C06_facts`.
+// EXCEPT the mps* facts (maxPayloadSizeForWrite): that function and halfConn.explicitNonceLen are
+// translated to Lean on every run (harness/cmd/go2lean) and tied to the model for all inputs by
+// lean/Gotlcp/Tie/RecordSize.lean, which is robust to renamings and equivalent re-arrangements;
+// the mps* text facts are still emitted as information but no theorem pins them and none of them
+// is ever reported as missing.
 
 import (
 	"go/ast"
@@ -116,7 +121,12 @@ func emitRecordTx(e *emitter, p *pkg) {
 			return true
 		})
 	}
-	e.nat("mpsPktGuard", guard, okGuard)
+	// informational since the translation tie (lean/Gotlcp/Tie/RecordSize.lean proves the translated
+	// maxPayloadSizeForWrite equal to the model with the literal Model.RecordTx.treePktGuard): the
+	// search is by the spelling of a local variable (`pkt > N`), so a renamed local is no longer
+	// reported as a missing fact (0 = not recognised)
+	_ = okGuard
+	e.nat("mpsPktGuard", guard, true)
 	e.boolean("mpsRamp", rtxHas(mps, "pkt := c.packetsSent") && rtxHas(mps, "c.packetsSent++") &&
 		rtxHas(mps, "n := payloadBytes * int(pkt+1)") && rtxHasPrefix(mps, "if n > maxPlaintext { n = maxPlaintext }") && rtxHas(mps, "return n"))
 
